@@ -71,7 +71,7 @@ def st_case(version, group_bias=0.0):
     @st.composite
     def s(draw):
         r = draw(st.randoms(use_true_random=False))
-        h = H.gen_history(r, version, {"p_rm": 0.25, "p_rename": 0.1, "group_bias": group_bias, "p_readd": 0.07})
+        h = H.gen_history(r, version, {"p_rm": 0.25, "p_rename": 0.1, "group_bias": group_bias, "p_readd": 0.07, "circular_first": 0.15})
         h["vlevel"] = gen.choice(r, [0, 1, 1, 2, 3])
         return h
     return s()
